@@ -49,6 +49,9 @@ Calls ==
   \cup {[op |-> "write", p |-> Sp(t), off |-> 0, n |-> n] : t \in P1 \cup {<<"foo", "a">>}, n \in {1, 9}}
   \cup {[op |-> "set_len", p |-> Sp(t), n |-> n] : t \in P1, n \in {0, 3}}
   \cup {[op |-> o, p |-> Sp(t)] : o \in {"set_clsid", "set_bits", "set_ctime", "set_mtime"}, t \in P1 \cup {<<>>, <<"foo", "a">>}}
+  \* the lookups: their answers are compared exactly (they change nothing, so they only add transitions, not states)
+  \cup {[op |-> o, p |-> Sp(t)] : o \in {"exists", "is_stream", "is_storage"}, t \in Paths}
+Queries == {"exists", "is_stream", "is_storage"}
 
 Abstract(s, c) ==
   CASE c.op = "create_storage"     -> CreateStorage(s, c.p, <<>>)
@@ -64,6 +67,9 @@ Abstract(s, c) ==
     [] c.op = "set_bits"           -> SetBits(s, c.p, MBits)
     [] c.op = "set_ctime"          -> SetCTime(s, c.p, MTime)
     [] c.op = "set_mtime"          -> SetMTime(s, c.p, MTime)
+    [] c.op = "exists"             -> Exists(s, c.p)
+    [] c.op = "is_stream"          -> IsStream(s, c.p)
+    [] c.op = "is_storage"         -> IsStorage(s, c.p)
 Concrete(q, c) ==
   CASE c.op = "create_storage"     -> ApiCreateStorage(q, c.p, TZero)
     [] c.op = "create_storage_all" -> ApiCreateStorageAll(q, c.p, TZero)
@@ -78,6 +84,9 @@ Concrete(q, c) ==
     [] c.op = "set_bits"           -> ApiSetBits(q, c.p, MBits)
     [] c.op = "set_ctime"          -> ApiSetCTime(q, c.p, MTime)
     [] c.op = "set_mtime"          -> ApiSetMTime(q, c.p, MTime)
+    [] c.op = "exists"             -> ApiExists(q, c.p)
+    [] c.op = "is_stream"          -> ApiIsStream(q, c.p)
+    [] c.op = "is_storage"         -> ApiIsStorage(q, c.p)
 
 SameRes(a, b) == a.k = b.k /\ (a.k = "err" => a.e = b.e)
 
@@ -86,7 +95,7 @@ Init == p = P!Fresh /\ st = InitState /\ nops = 0 /\ last = [allowed |-> TRUE, n
 Do(c) ==
   LET r == Concrete(p, c)
       outs == Abstract(st, c)
-      match == {o \in outs : SameRes(o.res, r.res)}
+      match == {o \in outs : IF c.op \in Queries THEN o.res = r.res ELSE SameRes(o.res, r.res)}
   IN /\ nops < MaxOps
      /\ p' = r.p /\ nops' = nops + 1
      /\ st' = IF match = {} THEN st ELSE (CHOOSE o \in match : TRUE).st
